@@ -113,6 +113,10 @@ func lookupTimingScenarios() []*scen {
 		{Name: "L11 a patient caller behind three successive leaders that give up", Declared: []string{"d"}, UseTime: true, Horizon: m16,
 			OutcomesFor: map[string][]string{"u": {"hang-unless-patient"}}, CtxFor: map[string]string{"l1": "cancel", "l2": "cancel", "l3": "cancel", "p": "patient"},
 			Threads: map[string][]string{"l1": {"lookup:u"}, "l2": {"lookup:u"}, "l3": {"lookup:u"}, "p": {"lookup:u", "read:u"}, "zenv": {"cancelctx:l1", "cancelctx:l2", "cancelctx:l3"}}},
+		{Name: "L12 caller with a 1s deadline, the service needs 30s for its answer", Declared: []string{"d"}, UseTime: true, Horizon: m16, Latency: 30 * time.Second,
+			CtxFor: map[string]string{"a": "1s"}, Threads: map[string][]string{"a": {"lookup:u"}}},
+		{Name: "L13 callers with a 1s deadline and a cancelled one, the service needs 30s for its answer", Declared: []string{"d"}, UseTime: true, Horizon: m16, Latency: 30 * time.Second,
+			CtxFor: map[string]string{"a": "1s", "b": "cancel"}, Events: []string{"cancel:b"}, Threads: map[string][]string{"a": {"lookup:u"}, "b": {"lookup:u"}}},
 		{Name: "L6 three callers (none, 1s, cancelled), service answers or hangs", Declared: []string{"d"}, UseTime: true, Horizon: m16,
 			OutcomesFor: map[string][]string{"u": {"ok", "hang"}}, CtxFor: map[string]string{"b": "1s", "c": "cancel"}, Events: []string{"cancel:c"},
 			Threads: map[string][]string{"a": {"lookup:u", "read:u"}, "b": {"lookup:u"}, "c": {"lookup:u"}}},
@@ -124,6 +128,8 @@ func cadenceScenarios() []*scen {
 		{Name: "T10s background polling with a real ticker, interval 10s, all jitter choices", Declared: []string{"a"}, Interval: 10 * time.Second, UseTime: true, Horizon: 80 * time.Second,
 			Threads: map[string][]string{"clock": {"sleep:56s"}}, Events: []string{"srv-put:a"}},
 		{Name: "T10s-slow background polling, interval 10s, every request takes 1s", Declared: []string{"a", "b"}, Interval: 10 * time.Second, Latency: time.Second, UseTime: true, Horizon: 80 * time.Second,
+			Threads: map[string][]string{"clock": {"sleep:56s"}}, Events: []string{"srv-put:a"}},
+		{Name: "T10s-fail background polling, interval 10s, requests may fail", Declared: []string{"a"}, Interval: 10 * time.Second, UseTime: true, Horizon: 80 * time.Second, Outcomes: []string{"ok", "fail"},
 			Threads: map[string][]string{"clock": {"sleep:56s"}}, Events: []string{"srv-put:a"}},
 		{Name: "T1h background polling with a real ticker, interval 1h, all jitter choices", Declared: []string{"a", "b"}, Interval: time.Hour, UseTime: true, Horizon: 8 * time.Hour,
 			Threads: map[string][]string{"clock": {"sleep:5h36m"}}, Events: []string{"srv-put:b"}},
